@@ -190,6 +190,39 @@ func (e *Engine) intrinsic(st *State, fr *Frame, in ssa.CallInstruction, name st
 			e.rep.note("shared-write", strings.Join(st.sharedWhere, "; "))
 		}
 		return ConstBV(64, uint64(st.sharedWrites))
+	case "vfHeapSnapshot":
+		st.heap = st.heap.child()
+		st.snap = st.heap.parent
+		st.globals = st.globals.child()
+		st.snapG = st.globals.parent
+		st.log = &accessLog{epoch: *st.nextObj}
+		return nil
+	case "vfHeapRestore":
+		if st.snap == nil {
+			abort("unsupported", "vfHeapRestore without snapshot")
+		}
+		st.heap = st.snap.child()
+		st.globals = st.snapG.child()
+		return nil
+	case "vfThreadBegin":
+		st.thread = e.needInt(st, args[0], "thread id")
+		if st.log == nil {
+			st.log = &accessLog{epoch: *st.nextObj}
+		}
+		st.log.held = nil
+		return nil
+	case "vfThreadEnd":
+		st.thread = 0
+		return nil
+	case "vfNoRace":
+		if st.log == nil {
+			return True
+		}
+		rs := st.log.races()
+		for _, r := range rs {
+			e.rep.note("data-race", r)
+		}
+		return ConstBool(len(rs) == 0)
 	case "vfCut":
 		abort("cut", "%s", argStr(args, 0))
 	case "vfReach":
